@@ -428,11 +428,21 @@ func killRuns(r *ev.Run, kind, scratch string, kills int) {
 						o.info.Kind = "recv-nowrite" // the blob was present before (duplicate / nothing appended yet)
 					case kindName == "remove-?":
 						liveHeader := false
+						damagedUnderLive := false // a LIVE header of the blob in front of bytes that are not the blob's
 						packs, _, _ := readPacks(dir)
 						hdr := []byte(fmt.Sprintf("[%s %d]", x.Ref, len(x.Data)))
 						for _, c := range packs {
-							if bytes.Contains(c, hdr) {
+							for at := 0; ; {
+								i := bytes.Index(c[at:], hdr)
+								if i < 0 {
+									break
+								}
 								liveHeader = true
+								body := c[at+i+len(hdr):]
+								if len(body) >= len(x.Data) && !bytes.Equal(body[:len(x.Data)], x.Data) {
+									damagedUnderLive = true
+								}
+								at += i + len(hdr)
 							}
 						}
 						intact := false
@@ -444,7 +454,7 @@ func killRuns(r *ev.Run, kind, scratch string, kills int) {
 							}
 						}
 						switch {
-						case present && !intact && liveHeader:
+						case present && !intact && damagedUnderLive:
 							o.info.Kind = "remove-zeroed-only" // body gone under a LIVE header, row still there
 						case present && !intact:
 							o.info.Kind = "remove-header-zeroed" // body gone, header rewritten, row still there
